@@ -53,7 +53,7 @@ def run(chk):
     from abacusnbody.data.compaso_halo_catalog import user_dt
     ncmp = nontriv = 0
     root = os.path.join(chk.scratch, 'cat')
-    for (box, vel) in BOXVEL:
+    for pi, (box, vel) in enumerate(BOXVEL):
         base = sc.raw_halo_columns(uids)
         ov = {}
         raw = np.array([r[0] for r in rows], dtype=np.float64) / RD
@@ -89,7 +89,9 @@ def run(chk):
                 mn[j], mx[j] = a, b
             ov['sigmavMin_to_sigmav3d' + com + '_i16'], ov['sigmavMax_to_sigmav3d' + com + '_i16'] = mn, mx
         cat = [[dict(nA=0, gA=0, mA=0, hA=0, nB=0, gB=0, mB=0, hB=0, away=False) for _ in range(n)]]
-        hdr = sc.header(BoxSize=float(box), VelZSpace_to_kms=float(vel))
+        # header values are whatever the file's author wrote: integers for alternate pairs (an integer BoxSize must not drag the int16 columns into integer arithmetic)
+        as_hdr = (lambda v: int(v) if (pi % 2 and float(v).is_integer()) else float(v))
+        hdr = sc.header(BoxSize=as_hdr(box), VelZSpace_to_kms=as_hdr(vel))
         zd = sc.write_catalog(root, cat, hdr=hdr, halo_overrides={0: ov})
         loads = {}
         for convert in (True, False):
